@@ -46,21 +46,21 @@ Theorem C02_proto_close_cb_iff_closed :
 Proof. exact close_cb_iff_closed. Qed.
 Print Assumptions C02_proto_close_cb_iff_closed.
 
-(* "close_cb runs in a later closing phase": the faithful model refutes the
-   unconditional statement for fs_poll (start, stop, start while the first stat
-   is in flight, close: nothing queued, nothing in flight, callback owed for
-   ever) ... *)
-Theorem C02_close_cb_eventually_refuted :
-  exists os beh h,
-    let s := final os beh in
-    clq s = [] /\ hvalid s h = true /\ h_closing (hget s h) = true /\
-    has_stat (h_ctxs (hget s h)) = false /\ ~ In (ECloseCb h) (ctrace os beh).
-Proof. exact close_cb_eventually_refuted. Qed.
-Print Assumptions C02_close_cb_eventually_refuted.
+(* "close_cb runs in a later closing phase": whenever the closing queue is
+   empty, every closing handle has had its close callback, except an fs_poll
+   handle with a context still alive (whose stat completion / timer close will
+   queue it; that every context does die is the context-chain invariant of C17
+   and is not proved here).  Until /repo 834ed95 the model had a refuting
+   script for the unconditional statement (C02_close_cb_eventually_refuted);
+   with the repaired poll_cb that script delivers the callback: *)
+Example C02_fs_poll_restart_now_closes :
+  ctrace [OInit TFsPoll; OFpStart 0; OFpStop 0; OFpStart 0; OFpStat 0; OFpStat 0; OClose 0;
+          OPhase; OPhase; OPhase] (fun _ => []) =
+  [EIn (OInit TFsPoll); EIn (OFpStart 0); EIn (OFpStop 0); EIn (OFpStart 0);
+   ETouch 0; EIn (OFpStat 0); ETouch 0; EIn (OFpStat 0); EIn (OClose 0);
+   EIn OPhase; ETouch 0; ETouch 0; EIn OPhase; ECloseCb 0; EIn OPhase].
+Proof. exact fs_poll_restart_now_closes. Qed.
 
-(* ... and this is what holds: whenever the closing queue is empty, every
-   closing handle has had its close callback, except an fs_poll handle with a
-   context still alive *)
 Theorem C02_close_cb_eventually_partial :
   forall os beh h,
     let s := final os beh in
@@ -68,6 +68,29 @@ Theorem C02_close_cb_eventually_partial :
     In (ECloseCb h) (ctrace os beh) \/ (h_ty (hget s h) = TFsPoll /\ h_ctxs (hget s h) <> []).
 Proof. exact close_cb_eventually_partial. Qed.
 Print Assumptions C02_close_cb_eventually_partial.
+
+(* at the CloseCb h event every request ever accepted on h has had exactly one
+   completion callback earlier in the trace ([cnt r pre] counts the EReqCb r
+   events of pre) *)
+Theorem C02_requests_first_exactly_once :
+  forall os beh pre h post r k,
+    ctrace os beh = pre ++ ECloseCb h :: post ->
+    In (EIn (OSubmit h r k)) pre -> cnt r pre = 1%nat.
+Proof. exact requests_first_exactly_once. Qed.
+Print Assumptions C02_requests_first_exactly_once.
+
+(* ... and its status: a callback delivered while the handle is closing (third
+   field of EReqCb) carries UV_ECANCELED exactly when the request had not
+   completed before (no ODone event for it); if it had completed at the system
+   call with result st', the callback gets st' (0 for a non-negative udp send
+   result: [mapped]) *)
+Theorem C02_requests_cancelled_iff_not_completed :
+  forall os beh pre r st post,
+    ctrace os beh = pre ++ EReqCb r st true :: post ->
+    (exists st', In (EIn (ODone r st')) pre /\ mapped st st') \/
+    (~ done_in r pre /\ st = UV_ECANCELED).
+Proof. exact cancelled_iff_not_completed. Qed.
+Print Assumptions C02_requests_cancelled_iff_not_completed.
 
 (* nothing is owned any more when the close callback runs *)
 Theorem C02_resources_released :
